@@ -393,7 +393,7 @@ fn roaring_streams(quick: bool) -> Vec<Vec<u8>> {
         1 => &[(0, 65535)],
         2 => &[(65535, 1)],
         3 => &[(5, 10), (3, 10)],
-        _ => &[],
+        _ => &[], // 4: declares 0xFFFF runs and carries none; 5: a run container without runs
       };
       let declared: u16 = if c.shape == 4 { 0xFFFF } else { intervals.len() as u16 };
       out.extend(declared.to_le_bytes());
@@ -438,7 +438,7 @@ fn roaring_streams(quick: bool) -> Vec<Vec<u8>> {
         singles.push(C { key, card_field, shape, run: false });
       }
     }
-    for shape in 0..5u8 {
+    for shape in 0..6u8 {
       singles.push(C { key, card_field: 0, shape, run: true });
     }
   }
@@ -643,7 +643,7 @@ pub fn generate(ctx: &Ctx) {
     r.serialize_into(&mut raw).expect("serialize");
     inputs.extend(positional_space(&raw, &[0x00, 0xFF, 0x3A, 0x3B, 0x30], true));
   }
-  run_bins(ctx, "binary: RevocationBitmap hand-built roaring", "RevocationBitmap::try_from(Service)[roaring bytes]", &inputs, json!({"product": "cookie kind x declared-size relation {n,n+1,0,65536,65537,u32::MAX} x <=2 containers x key x cardinality field x payload shape (sorted/descending/duplicates/short/max; run: 5 interval lists)", "streams": inputs.len()}));
+  run_bins(ctx, "binary: RevocationBitmap hand-built roaring", "RevocationBitmap::try_from(Service)[roaring bytes]", &inputs, json!({"product": "cookie kind x declared-size relation {n,n+1,0,65536,65537,u32::MAX} x <=2 containers x key x cardinality field x payload shape (sorted/descending/duplicates/short/max; run: 6 interval lists incl. none)", "streams": inputs.len()}));
 
   // ------------------------------------------------------------ StatusList2021: compressed seed streams
   let mut gz: Vec<Vec<u8>> = Vec::new();
